@@ -19,7 +19,9 @@ Ovba.decompress):
     file -> VbaProject::new and Reader::vba_project of Xlsx/Xlsb/Xls; expected = the extracted
     spec OvbaDir.expected_refs + the generator's sources decoded with the project's code page.
     References with and without their optional NameRecord (first, middle, last, runs, all; the
-    three reference kinds).  Code pages: single-byte ones through their full 256-entry table;
+    three reference kinds).  Modules with and without their optional MODULENAMEUNICODE record
+    (MS-OVBA 2.3.4.2.3.2; about 35 % of the generated modules lack it: none / some / all of a
+    project's modules, plus fixed projects).  Code pages: single-byte ones through their full 256-entry table;
     the multi-byte ones 932, 936 and 65001 through Python's codecs on text that is valid in the
     code page (characters on which Python and encoding_rs agree: see MB_ALPHABETS).
 """
@@ -31,6 +33,7 @@ ASSUMPTIONS = [
     "the read cursor of decompress_stream is modelled as the remaining suffix of the input, the output Vec as a reversed list plus its length (representation only; tied by the correspondence run)",
     "the code-page decoder is a parameter of the model (all theorems are for every decoder); the correspondence instantiates it with the full 256-entry table for single-byte code pages and, for 932 / 936 / 65001, with Python's cp932 / gbk / utf-8 codecs on text built from a fixed alphabet valid in the code page (where Python and encoding_rs agree); mutated dir streams keep the original PROJECTCODEPAGE value because the decoder handed to the model is the one of that code page",
     "MS-OVBA 2.3.4.2.2.1: the NameRecord of a REFERENCE is optional; a reference written without it is expected in the list with the empty name",
+    "MS-OVBA 2.3.4.2.3.2: the MODULENAMEUNICODE record (0x0047) of a MODULE record is optional; a module written without it is expected under its MODULENAME (0x0019) text decoded with the project's code page, like one written with it",
 ]
 
 CHUNK = 4096
@@ -783,6 +786,23 @@ def nameless_flags(rng, n, pattern):
         return [rng.random() < 0.5 for _ in range(n)]
     return [True] * n
 
+# which modules of a project lack the optional MODULENAMEUNICODE record (MS-OVBA 2.3.4.2.3.2);
+# over the ten equally likely patterns about 35-40 % of all generated modules lack it (the run
+# reports the exact counts as module_nameu:absent:* / module_nameu:present:*)
+NAMEU_PATTERNS = ["none", "none", "none", "all", "all", "half", "half", "some", "first", "last"]
+def nameu_absent_flags(rng, n, pattern):
+    if pattern == "none":
+        return [False] * n
+    if pattern == "all":
+        return [True] * n
+    if pattern == "half":
+        return [rng.random() < 0.5 for _ in range(n)]
+    if pattern == "some":
+        return [rng.random() < 0.3 for _ in range(n)]
+    if pattern == "first":
+        return [k == 0 for k in range(n)]
+    return [k == n - 1 for k in range(n)]
+
 def gen_libid(rng, high, flavour=None):
     flavour = flavour or rng.choice(["std", "std", "std", "nopath", "empty", "hh", "onehash", "nohash", "manyhash"])
     guid = b"*\\G{%08X-0000-0000-C000-000000000046}" % rng.randrange(2 ** 32)
@@ -860,6 +880,13 @@ def gen_project(rng, pid, tier, single_byte_only=False):
                                   str(rng.randrange(2 ** 32))]))
     nmods = rng.choice([0, 1, 1, 2, 3, 5])
     bodies, used_streams, names = [], set(), []
+    # MS-OVBA 2.3.4.2.3.2: MODULENAME [MODULENAMEUNICODE] MODULESTREAMNAME … — which modules are
+    # written WITHOUT the optional record 0x0047 (overall about 35 % of the modules)
+    nameu_pattern = rng.choice(NAMEU_PATTERNS)
+    no_nameu = nameu_absent_flags(rng, nmods, nameu_pattern)
+    if nmods:
+        ref_tags.append("mods_nameu_pattern:" + nameu_pattern)
+        ref_tags.append("project_mods_nameu:" + ("all_absent" if all(no_nameu) else "all_present" if not any(no_nameu) else "mixed"))
     for mi in range(nmods):
         name = D(gen_name(rng, high))
         if names and rng.random() < 0.04:
@@ -890,7 +917,9 @@ def gen_project(rng, pid, tier, single_byte_only=False):
             ch, meaning, _ = make_chunk(rng, data, mode, rng.randrange(8) if rng.random() < 0.5 else None)
             if ch is not None:
                 chunks.append(ch); source += meaning
-        secs.append(" ".join(["M", hx(name), hx(u16le(name, tbl)), hx(sname), hx(u16le(sname, tbl)),
+        ref_tags.append("module_nameu:%s:%s" % ("absent" if no_nameu[mi] else "present",
+                                                 "only" if nmods == 1 else "first" if mi == 0 else "last" if mi == nmods - 1 else "middle"))
+        secs.append(" ".join(["M", hx(name), "~" if no_nameu[mi] else hx(u16le(name, tbl)), hx(sname), hx(u16le(sname, tbl)),
                               hx(B(20)), hx(u16le(B(8), tbl)), str(len(pcode)), str(rng.randrange(2 ** 32)),
                               str(rng.randrange(2 ** 16)), str(rng.randrange(2)), str(rng.randrange(2)), str(rng.randrange(2))]))
         bodies.append({"name": name, "stream": sname, "pcode": pcode, "chunks": chunks, "source": D(bytes(source))})
@@ -975,7 +1004,7 @@ def build_project_cases(ctx, projs, mutate):
             ctx.disagreements.append({"function": "generator_valid(module chunks)", "case": cid, "impl": "python", "model": "invalid"})
             continue
         # container-level faults (only on otherwise untouched projects)
-        if not c["mut"] and p["bodies"] and rng.random() < 0.08:
+        if not c["mut"] and p["bodies"] and not p.get("no_fault") and rng.random() < 0.08:
             fault = rng.choice(["missing_stream", "bad_signature", "offset_past_end", "no_dir"])
             if fault == "missing_stream":
                 streams.pop(rng.randrange(1, len(streams)))
@@ -1046,7 +1075,9 @@ def run_project_files(ctx, cases, model, limit):
     d = os.path.join(vlib.CACHE, "tmp", "C18-%d" % os.getpid())
     os.makedirs(d, exist_ok=True)
     try:
-        pick = [c for c in cases if not c["mut"]][:limit] + [c for c in cases if c["mut"]][:limit // 3]
+        fixed_mods = [c for c in cases if "project:fixed_no_modulenameunicode" in c["p"].get("tags", [])]
+        pick = ([c for c in cases if not c["mut"] and c not in fixed_mods][:limit] + fixed_mods +
+                [c for c in cases if c["mut"]][:limit // 3])
         lines, meta = [], {}
         wb = minimal_workbook_stream()
         for c in pick:
@@ -1075,6 +1106,8 @@ def run_project_files(ctx, cases, model, limit):
             for t in c["p"].get("tags", []):
                 if t.startswith("project_text:multibyte") and c["expected"] is not None and c["expected"].startswith("ok"):
                     ctx.count("project_file_" + t[8:])       # multi-byte text through Reader::vba_project
+                if t.startswith("project_mods_nameu:") and c["expected"] is not None and c["expected"].startswith("ok"):
+                    ctx.count("project_file_" + t[8:])       # modules without MODULENAMEUNICODE through Reader::vba_project
             if c["expected"] is not None and c["p"].get("known", "-") != "-":
                 if i != m:
                     ctx.disagreements.append({"function": "Reader::vba_project(%s)" % kind, "case": line, "impl": i, "model": m})
@@ -1111,12 +1144,44 @@ FIXED_PROJECTS = [
     _INFO + "|G 1 - - " + _L1 + "|G 0 - - " + _L2,                              # a NameRecord holding the empty name
 ]
 
+# fixed projects whose MODULE records lack the optional MODULENAMEUNICODE record (0x0047; MS-OVBA
+# 2.3.4.2.3.2) — before fix: 4d45fd5 read_modules answered InvalidRecordId on each of them.
+# M name nameu|~ stream streamu doc docu offset helpctx cookie document ro private
+def _fixed_module(name, stream, nameu, pcode, text, flags="0 0 0", doc="-", docu="-"):
+    line = " ".join(["M", name.hex(), (name.decode("ascii").encode("utf-16le").hex() if nameu else "~"),
+                     stream.hex(), stream.decode("ascii").encode("utf-16le").hex(), doc, docu,
+                     str(len(pcode)), "7", "1", flags])
+    body = {"name": name, "stream": stream, "pcode": pcode, "chunks": [("T", [("l", b) for b in text])] if text else [],
+            "source": text}
+    return line, body
+def _fixed_module_project(mods, refs=()):
+    lines, bodies = zip(*mods)
+    return "|".join([_INFO] + list(refs) + list(lines)), list(bodies)
+FIXED_MODULE_PROJECTS = [
+    # the Coq example OvbaDir_proofs.ex_mod_plain: MODULENAME "M" directly followed by MODULESTREAMNAME "S"
+    _fixed_module_project([_fixed_module(b"M", b"S", False, b"\x09" * 5, b"Sub a()\r\nEnd Sub\r\n")]),
+    _fixed_module_project([_fixed_module(b"M", b"S", True, b"\x09" * 5, b"Sub a()\r\nEnd Sub\r\n")]),    # control: with it
+    _fixed_module_project([_fixed_module(b"Module1", b"Module1", False, b"", b"x = 1\r\n"),
+                           _fixed_module(b"Sheet1", b"Sheet1", True, b"\0" * 100, b"' sheet\r\n", "1 0 0")]),
+    _fixed_module_project([_fixed_module(b"ThisWorkbook", b"ThisWorkbook", True, b"\1\2\3", b"Option Explicit\r\n", "1 1 1"),
+                           _fixed_module(b"Module1", b"Module1", False, b"", b"y = 2\r\n", "0 1 1", doc="646f63", docu="64006f006300")]),
+    _fixed_module_project([_fixed_module(b"A", b"sa", False, b"", b"a"), _fixed_module(b"B", b"sb", False, b"z", b"bb"),
+                           _fixed_module(b"C", b"sc", False, b"zz", b"")],
+                          refs=[_STD, "G 0 - - " + _L2]),                          # none of three has it; a nameless reference too
+    # module and stream named "G" (byte 47, the low byte of the record id): record content, not an id
+    _fixed_module_project([_fixed_module(b"G", b"G", False, b"", b"g"), _fixed_module(b"G2", b"G2", True, b"", b"h")]),
+]
+
 def run_projects(ctx, n_valid, n_mut_projects, n_mut_each):
     rng = ctx.rng
     projs = [gen_project(rng, "p%d" % k, ctx.tier) for k in range(n_valid)]
     projs += [{"pid": "fx%d" % k, "desc": d, "dec": "id", "table": list(range(256)), "decode": make_decoder(list(range(256)), False),
                "cp": 1252, "bodies": [], "cp_known": True, "tags": ["project:fixed_nameless_regression"]}
               for k, d in enumerate(FIXED_PROJECTS)]
+    projs += [{"pid": "fm%d" % k, "desc": d, "dec": "id", "table": list(range(256)), "decode": make_decoder(list(range(256)), False),
+               "cp": 1252, "bodies": bodies, "cp_known": True, "no_fault": True,
+               "tags": ["project:fixed_no_modulenameunicode"]}
+              for k, (d, bodies) in enumerate(FIXED_MODULE_PROJECTS)]
     cases = build_project_cases(ctx, projs, 0)
     mprojs = [gen_project(rng, "q%d" % k, ctx.tier, single_byte_only=True) for k in range(n_mut_projects)]
     cases += build_project_cases(ctx, mprojs, n_mut_each)
